@@ -250,6 +250,8 @@ pub fn check(s: &str) -> Result<Stats, String> {
 #[derive(Default, Debug)]
 pub struct Sweep {
     pub strings: u64,
+    pub interleaved: u64,
+    pub prev: String,
     pub pumped: u64,
     pub tokens: u64,
     pub inner_nodes: u64,
@@ -261,8 +263,32 @@ pub struct Sweep {
     pub panics: u64,
 }
 
+/// Calls of the library's *other* parsing entry points on the same thread, right before the next input is
+/// checked: whatever a parser keeps between two uses (a thread-local buffer, a cache) must not leak into the
+/// next parse. The string is the previous input, every kind of prefix and tail included.
+fn interleave(prev: &str, out: &mut Sweep) {
+    out.interleaved += 1;
+    let _ = std::panic::catch_unwind(|| {
+        let _ = prev.parse::<anything::Compound>();
+        let _ = prev.parse::<anything::Rational>();
+    });
+    if out.interleaved % 3 == 0 {
+        let _ = std::panic::catch_unwind(|| {
+            let _ = Parser::new(prev).parse_unit();
+        });
+    }
+}
+
 fn run_one(s: &str, kinds: &mut HashSet<u64>, shapes: &mut HashSet<u64>, out: &mut Sweep) {
     out.strings += 1;
+    // every fourth input is preceded by unit / number parses of the input before it
+    if out.strings % 4 == 0 {
+        let prev = std::mem::take(&mut out.prev);
+        interleave(&prev, out);
+        out.prev = prev;
+    }
+    out.prev.clear();
+    out.prev.push_str(s);
     let r = std::panic::catch_unwind(|| check(s));
 
     match r {
@@ -337,6 +363,7 @@ fn merge(
         if let Ok((o, k, s)) = h.join() {
             all.strings += o.strings;
             all.pumped += o.pumped;
+            all.interleaved += o.interleaved;
             all.tokens += o.tokens;
             all.inner_nodes += o.inner_nodes;
             all.max_depth = all.max_depth.max(o.max_depth);
